@@ -177,3 +177,24 @@ def run(job):
                         job.case("convert/other-type-after-same-scales",
                                  (how, a1.symbol, b1.symbol, name, a2.symbol,
                                   b2.symbol), True)
+
+    # a quantity type declared as a Python subclass of another one is a type of
+    # its own: no conversion between the two (either direction)
+    if not job.shard:
+        sub = QuantityMeta(W.uid("FlightLevel"), (P.Length,), {},
+                           ref_unit_symbol=W.uid("FL"))
+        hfl = sub.new_unit(W.uid("hFL"), define_as=Decimal(100) * sub.ref_unit)
+        for q, target in ((Fraction(7, 2) * hfl, P.METRE), (2 * sub.ref_unit, P.KILOMETRE),
+                          (3 * P.METRE, sub.ref_unit), (3 * P.KILOMETRE, hfl)):
+            for name, fn in (("convert", lambda: q.convert(target)),
+                             ("equiv_amount", lambda: q.equiv_amount(target)),
+                             ("add", lambda: q + 1 * target),
+                             ("lt", lambda: q < 1 * target)):
+                try:
+                    r = fn()
+                    job.case("convert/subclass-is-another-type",
+                             (repr(q), target.symbol, name), False, repr(r),
+                             "IncompatibleUnitsError")
+                except IncompatibleUnitsError:
+                    job.case("convert/subclass-is-another-type",
+                             (repr(q), target.symbol, name), True)
